@@ -387,7 +387,21 @@ fn dump() -> ControlFlow<()> {
                 if let Ok(inst) = Instance::try_from(item) {
                     root_names.push(json!({"root": r, "name": name.clone(), "inst": cx.note_inst(inst)}));
                 } else {
-                    root_names.push(json!({"root": r, "name": name.clone(), "inst": Value::Null, "error": "generic"}));
+                    // closures inside functions with (late-bound) generics: resolve through their type
+                    let mut done = false;
+                    if let TyKind::RigidTy(RigidTy::Closure(def, args)) = item.ty().kind() {
+                        for kind in [ClosureKind::Fn, ClosureKind::FnMut, ClosureKind::FnOnce] {
+                            if let Ok(inst) = Instance::resolve_closure(def, &args, kind) {
+                                cx.note_ty(item.ty());
+                                root_names.push(json!({"root": r, "name": name.clone(), "inst": cx.note_inst(inst), "closure_ty": ty_id(item.ty())}));
+                                done = true;
+                                break;
+                            }
+                        }
+                    }
+                    if !done {
+                        root_names.push(json!({"root": r, "name": name.clone(), "inst": Value::Null, "error": "generic"}));
+                    }
                 }
             }
         }
